@@ -3,12 +3,20 @@ import math, random
 from fractions import Fraction
 from .. import core
 
-MODULES = ['DsdVerif.Props.C18']
-GEN_FILES = ['UnitTables', 'GrammarUnits']
+MODULES = ['DsdVerif.Props.C18', 'DsdVerif.Props.PyUnits']
+GEN_FILES = ['UnitTables', 'GrammarUnits', 'PyUnits']
 THEOREMS = ['Dsd.Units.' + t for t in [
     'tables_physical', 'families_disjoint', 'grammar_units_convertible', 'convert_def', 'convert_ok_iff',
     'convert_id', 'convert_compose', 'convert_inverse', 'rate_roundtrip', 'rateformat_physical',
     'rateformat_roundtrip', 'concentrationformat_physical']]
+# flint / convert_units / ReactionS.rate_constant / rateformat / arity / ComplexS.concentration* as written in the source
+# (translator/pyunits.py -> Gen/PyUnits.lean, regenerated on every run; numbers read as the exact rationals they denote)
+THEOREMS += ['Dsd.PyUnits.' + t for t in [
+    'py_flint_eq', 'py_convert_units_eq', 'py_rate_set_eq', 'py_rate_set_refused', 'py_rate_get_eq', 'py_arity_eq', 'py_rateformat_eq',
+    'py_rateformat_no_units', 'py_conc_set_eq', 'py_conc_get_eq', 'py_concentrationformat_eq', 'py_concentrationformat_none',
+    'py_div_zero_raises', 'py_convert_units_never_divides_by_zero', 'py_rateformat_none_const_raises', 'py_rate_set_const_isSome',
+    'py_convert_id', 'py_convert_compose', 'py_convert_inverse', 'py_rate_roundtrip', 'py_rateformat_physical', 'py_rateformat_roundtrip',
+    'py_concentrationformat_convert']]
 ASSUMPTIONS = [
     'unit tables and grammar unit alternatives are transcribed from utils.py / pil_parser.py on every run',
     'arithmetic is exact in the model (Rat); the implementation computes in IEEE doubles: values are compared '
@@ -23,6 +31,7 @@ MANIFEST = {
             'setter and flint by a correspondence stream (all ordered unit pairs, values over 300 orders of magnitude).',
     'note': 'Floating-point rounding is modelled-not-verified (tolerance comparison); Lean kernel, translator and the hand model '
             'of the conversion functions are trusted as stated in DESIGN.md section 3.',
+    'source_derived': 'STATEMENT LEVEL, FROM THE SOURCE (since batch 7): translator/pyunits.py transcribes flint, convert_units, ReactionS.rate_constant (getter, setter), rateformat, arity and ComplexS.concentration / concentrationformat from the working tree (Gen/PyUnits.lean; a Python number is read as the exact rational it denotes - rounding is not modelled; the dict displays inside convert_units are checked to be the ones Gen/UnitTables is regenerated from); PyUnits.py_convert_units_eq, py_rate_set_eq, py_rate_set_refused (a refused assignment leaves the object unchanged), py_rateformat_eq, py_concentrationformat_eq prove each equal to the model for all inputs, and py_convert_compose, py_convert_inverse, py_rate_roundtrip, py_rateformat_physical, py_rateformat_roundtrip are C18 for the code as written; stream units.source-derived.',
     'technique': 'Lean 4 theorems over Rat (field_simp) + decide over unit tables regenerated from source; correspondence check',
 }
 
@@ -342,6 +351,9 @@ def run(res, proof):
         res.sample(line_of(op))
     res.dist['unit_pairs'] = n_pairs
     del w
+    # the unit / rate functions as translated from the working tree (Gen/PyUnits.lean) against the real ones
+    from .pyunits_stream import source_derived_pyunits
+    source_derived_pyunits(res, proof)
 
 
 def replay(body, repo):
